@@ -382,6 +382,7 @@ type Fn struct {
 
 	defCache   map[*ast.Ident]ast.Expr
 	structEscapes map[*types.Var]bool
+	subst         map[types.Object]ast.Expr // substitution in force during expand (memoValue)
 	litAssigns map[types.Object]bool
 	matchDepth int
 	nAssign    map[types.Object]int
